@@ -19,7 +19,8 @@ Record InvM (s : state) : Prop := {
   m_pmux2 : forall u x, memb x (usigs s u) = true -> pmux s x = Some u;
   m_pmux3 : forall u x, pmux s x = Some u -> memb x (usigs s u) = true;
   m_unalloc : forall u x, (nsig s <= u)%nat -> ufixed s u x = false /\ ugids s u x = None /\ usigs s u = [];
-  m_fixed_mux : forall u x, ufixed s u x = true -> is_mux s u = true /\ (u < nsig s)%nat
+  m_fixed_mux : forall u x, ufixed s u x = true -> is_mux s u = true /\ (u < nsig s)%nat;
+  m_usigs_nd : forall u, NoDup (usigs s u)
 }.
 
 (* the multiplexer-relevant part of a state *)
@@ -46,6 +47,7 @@ Proof.
   - intros u x. rewrite E3, E1. intros F. destruct (m_fixed_mux0 u x F) as [A B]. split; [|exact B].
     unfold is_mux in *. destruct (kind s u) as [| |c g] eqn:K; try discriminate.
     rewrite (proj2 (Hk u c g B) K). reflexivity.
+  - intros u. rewrite E5. apply m_usigs_nd0.
 Qed.
 
 Lemma usigs_msg_add : forall s m x, usigs (msg_add_signal s m x) = usigs s. Proof. reflexivity. Qed.
@@ -226,6 +228,7 @@ Proof.
   - intros u x Hu. rewrite Ef, Ei, Eu. apply (m_unalloc s H). lia.
   - intros u x. rewrite Ef, En. intros F. destruct (m_fixed_mux s H u x F) as [A B]. split; [|lia].
     unfold is_mux in *. rewrite Ek. rewrite upd_other by lia. exact A.
+  - intros u. rewrite Eu. apply (m_usigs_nd s H).
 Qed.
 
 Lemma invm_new_std : forall s n, InvA s -> InvM s -> InvM (fst (step s (ONewStd n))).
@@ -319,6 +322,7 @@ Proof.
     + repeat split; assumption.
   - intros u' x'. rewrite Ef, En. destruct (Nat.eqb u' u && Nat.eqb x' x); [discriminate|]. intros F.
     unfold is_mux. rewrite Ek. apply (m_fixed_mux s H u' x' F).
+  - intros u'. rewrite Eu. destruct (Nat.eqb u' u); [apply lrem_NoDup|]; apply (m_usigs_nd s H).
 Qed.
 
 Lemma usigs_mux_remove : forall s u x u', usigs (mux_remove_signal s u x) u' = if Nat.eqb u' u then lrem x (usigs s u) else usigs s u'.
@@ -477,6 +481,7 @@ Proof.
     destruct (Nat.eqb_spec u' u) as [->|]; cbn [andb]; [|repeat split; assumption].
     destruct (Nat.eqb_spec x' x) as [->|]; [congruence|repeat split; assumption].
   - intros u' x'. apply (m_fixed_mux s H u' x').
+  - intros u'. apply (m_usigs_nd s H u').
 Qed.
 
 Lemma invm_clear_group_loop : forall xs s u g,
@@ -626,6 +631,8 @@ Proof.
   - intros u' x'. rewrite Hfx. destruct (Nat.eqb u' u); [discriminate|]. intros Fx.
     destruct (m_fixed_mux s H u' x' Fx) as [X Y]. split; [|cbn; rewrite A; exact Y].
     unfold is_mux in *. cbn. rewrite B. exact X.
+  - intros u'. change (usigs s' u') with (usigs s1 u'). destruct (Nat.eq_dec u' u) as [->|NE]; [rewrite Hus; constructor|].
+    rewrite F by exact NE. apply (m_usigs_nd s H).
 Qed.
 
 (* --- InsertSignal ---------------------------------------------------------------------------------- *)
@@ -706,6 +713,7 @@ Proof.
   - intros u' x'. rewrite Ef, En. unfold is_mux. rewrite Ek. destruct (Nat.eqb_spec u' u) as [->|NE]; cbn [andb].
     + intros _. split; [exact Hmux|exact Hu].
     + apply (m_fixed_mux s H u' x').
+  - intros u'. rewrite Eu. destruct (Nat.eqb u' u); [apply ladd_NoDup|]; apply (m_usigs_nd s H).
 Qed.
 
 Lemma insert_sortZ_In : forall x l y, In y (insert_sortZ x l) <-> y = x \/ In y l.
@@ -937,6 +945,7 @@ Proof.
   - intros u x C. cbn in C. discriminate.
   - intros u x _. cbn. repeat split.
   - intros u x F. cbn in F. discriminate.
+  - intros u. cbn. constructor.
 Qed.
 
 Lemma inv_both_from : forall ops s, InvA s -> InvM s -> ok_hist_from s ops ->
